@@ -124,6 +124,10 @@ def run_estimator_case(ctx, case, seed, observed, n_seq=1, seq_len=6):
     if info.get("discriminating") is False:
         ctx.count("refit_not_discriminating")
     _report(ctx, case, findings, dict(oracle="refit", case=case.key, seed=seed), observed)
+    findings, info = oracles.estimator_refit_other_arguments(case, seed)
+    ctx.case(("refit-args", case.key, seed), "skipped" not in info, sample=dict(kind="refit with / without sample_weight", case=case.key, seed=seed, findings=[f["kind"] + "/" + f["name"] for f in findings]))
+    ctx.count("refit_other_arguments" + ("_skipped" if "skipped" in info else ""))
+    _report(ctx, case, findings, dict(oracle="refit-args", case=case.key, seed=seed), observed)
     findings, info = oracles.estimator_refit_without_labels(case, seed)
     ctx.case(("refit-cold", case.key, seed), "continued" in info, sample=dict(kind="refit without labels, then continue", case=case.key, seed=seed, info=info, findings=[f["kind"] + "/" + f["name"] for f in findings]))
     ctx.count("refit_without_labels" + ("_raised" if "raised" in info else ("_skipped" if "skipped" in info else "")))
@@ -280,6 +284,8 @@ def replay(payload):
         return 2
     if r["oracle"] == "refit":
         findings, _ = oracles.estimator_refit_vs_fresh(case, r["seed"])
+    elif r["oracle"] == "refit-args":
+        findings, _ = oracles.estimator_refit_other_arguments(case, r["seed"])
     elif r["oracle"] == "refit-cold":
         findings, _ = oracles.estimator_refit_without_labels(case, r["seed"])
     elif r["oracle"] == "refit-subsets":
